@@ -241,7 +241,7 @@ def sub_equality(ctx, shard, n):
                       [["Diatonic", M, o, [3, 7]], ["Major", M, o]], [["Diatonic", m, o, [2, 5]], ["NaturalMinor", m, o]],
                       [["Major", M, o], ["Major", M, o + 1]], [["Major", M, o], ["NaturalMinor", m, o]],
                       [["Chromatic", M, o], ["Chromatic", T.KEYS[n_sig][1], o]]]
-    ctx.enumerate("eq", check_eq, cases)
+    ctx.enumerate("eq", check_eq, cases[shard::n])
     inst = _instances(True)
     ctx.given("eq", check_eq, st.tuples(st.sampled_from(inst), st.sampled_from(inst)).map(list), 400 if ctx.quick else 5000)
 
@@ -273,13 +273,13 @@ def _recognition_strategy():
 
 
 def sub_recognition(ctx, shard, n):
-    ctx.given("recognition", check_recognition, _recognition_strategy(), 1000 if ctx.quick else 1900)
+    ctx.given("recognition", check_recognition, _recognition_strategy(), 1000 if ctx.quick else 4000)
 
 
 SUBS = [
     Sub("instances", sub_instances, quick=8, thorough=16),
     Sub("errors", sub_errors),
-    Sub("equality", sub_equality),
+    Sub("equality", sub_equality, quick=1, thorough=4),
     Sub("recognition_sets", sub_recognition_sets),
     Sub("recognition", sub_recognition, quick=4, thorough=16),
 ]
